@@ -614,7 +614,7 @@ class Builder:
 
     def align_item(self):
         if self.chance(0.7 - self.p.get('p_big_align', 0.0)):
-            return ir.Align(self.pick([2, 4, 4, 8, 16]))
+            return ir.Align(self.pick([1, 2, 4, 4, 8, 16]))
         if self.chance(self.p.get('p_big_align', 0.0) * 2):
             return ir.Align(self.pick([1024, 2048, 4096, 4096, 8192]))
         return ir.Align(self.pick([1, 1, 1, 2, 3, 4, 5, 6, 7, 8, 12, 16, 32, 64, 100, 128, 255, 256, 257, 512, 1000, 4096])
